@@ -141,6 +141,7 @@ type c14Case struct {
 	LoginAt int        `json:"login_at"` // number of events delivered before the login arrives
 	Events  []audEvent `json:"events"`   // events of one session (first is its LOGIN record)
 	Other   []audEvent `json:"other"`    // events of a second correlated session, interleaved round-robin
+	Weave   bool       `json:"weave,omitempty"` // records of consecutive events arrive interleaved (concurrent syscalls), each event's own records in order
 }
 
 func genC14(rt *rapid.T) c14Case {
@@ -172,6 +173,7 @@ func genC14(rt *rapid.T) c14Case {
 		}
 	}
 	c.LoginAt = rapid.IntRange(0, len(c.Events)).Draw(rt, "loginAt")
+	c.Weave = rapid.IntRange(0, 2).Draw(rt, "weave") == 0
 	return c
 }
 
@@ -201,8 +203,34 @@ func execC14Read(c c14Case) Outcome {
 		}
 		return rig.loginBarrier()
 	}
-	for _, ae := range all {
-		if ae.Ses == sesString(1) {
+	// line schedule: event by event, or (Weave) the records of each pair of
+	// consecutive events alternating
+	type schedLine struct {
+		ev    int
+		first bool
+		text  string
+	}
+	var sched []schedLine
+	for i := 0; i < len(all); i++ {
+		if c.Weave && i+1 < len(all) {
+			a, b := all[i].Lines, all[i+1].Lines
+			for k := 0; k < len(a) || k < len(b); k++ {
+				if k < len(a) {
+					sched = append(sched, schedLine{i, k == 0, a[k]})
+				}
+				if k < len(b) {
+					sched = append(sched, schedLine{i + 1, k == 0, b[k]})
+				}
+			}
+			i++
+			continue
+		}
+		for k, l := range all[i].Lines {
+			sched = append(sched, schedLine{i, k == 0, l})
+		}
+	}
+	for _, sl := range sched {
+		if sl.first && all[sl.ev].Ses == sesString(1) {
 			if !loginSent && sent1 == c.LoginAt {
 				if err := sendLogin(); err != nil {
 					return fail("login: %v %v", err, rig.exitErr)
@@ -210,10 +238,8 @@ func execC14Read(c c14Case) Outcome {
 			}
 			sent1++
 		}
-		for _, l := range ae.Lines {
-			if err := rig.line(l); err != nil {
-				return fail("Read exited while feeding a well-formed stream: %v (line %q)", rig.exitErr, l)
-			}
+		if err := rig.line(sl.text); err != nil {
+			return fail("Read exited while feeding a well-formed stream: %v (line %q)", rig.exitErr, sl.text)
 		}
 	}
 	if !loginSent {
@@ -280,6 +306,9 @@ func execC14Read(c c14Case) Outcome {
 	}
 	if missing > 0 {
 		labels = append(labels, "some_events_not_emitted_(not_judged_here)")
+	}
+	if c.Weave {
+		labels = append(labels, "records_of_consecutive_events_interleaved")
 	}
 	for _, n := range perSession {
 		if n >= 5 {
